@@ -304,7 +304,56 @@ pub fn run_hpkt(run: &mut Run, live: &Live, pkt: &[u8], nt: bool) {
         l.rt.block_on(l.ice.verif_handle_packet(&p, l.sink, rustrtc::transports::ice::IceSocketWrapper::Udp(l.sock.clone())));
         l.observed()
     });
+    // the model stops at the first byte: the STUN branch (second decode, authentication, reply encoding) is bounded on this side only
+    super::alloc_side_check(run, "hpkt", "ice::handle_packet", &hex(pkt), pkt.len(), 64, 2048);
 }
+fn cpu_time() -> f64 {
+    if let Ok(s) = std::fs::read_to_string("/proc/thread-self/stat") {
+        if let Some(rest) = s.rsplit(')').next() { let f: Vec<&str> = rest.split_whitespace().collect();
+            if f.len() > 13 { if let (Ok(u), Ok(k)) = (f[11].parse::<f64>(), f[12].parse::<f64>()) { return (u + k) / 100.0; } } }
+    }
+    0.0
+}
+/// oracle-only stream `iceflood`: what an ICE agent RETAINS, and how long it takes, when `count` Binding requests (no
+/// MESSAGE-INTEGRITY, any ufrag) arrive from `count` distinct source addresses. mode 0 WebRTC, 1 SDES, 2 plain RTP.
+/// Oracles: retained ≤ 16·bytes received + 64 KiB; CPU(4n) ≤ 8·CPU(n) once CPU(4n) ≥ 0.4 s.
+pub fn run_iceflood(run: &mut Run, mode: u8, count: u32) {
+    let case = format!("iceflood {mode} {count}");
+    let r = super::catch_ack(move || {
+        let mut out = (0u64, 0u64, [0f64; 2], 0usize);
+        for (round, n) in [count / 4, count].into_iter().enumerate() {
+            let live = Live::with(mode, true, None);
+            let mut bytes = 0u64;
+            super::alloc_reset();
+            let t0 = cpu_time();
+            for k in 0..n {
+                let mut p = vec![0u8, 1, 0, 8, 0x21, 0x12, 0xA4, 0x42]; p.extend_from_slice(&[0; 8]); p.extend_from_slice(&k.to_be_bytes());
+                p.extend_from_slice(&[0, 6, 0, 3, b'a', b':', b'b', 0]);
+                bytes += p.len() as u64;
+                let from = SocketAddr::new(IpAddr::V4(Ipv4Addr::from(0x7F01_0000 + k)), 40000);
+                live.rt.block_on(live.ice.verif_handle_packet(&p, from, rustrtc::transports::ice::IceSocketWrapper::Udp(live.sock.clone())));
+            }
+            out.2[round] = cpu_time() - t0;
+            if round == 1 { out.0 = super::alloc_retained().max(0) as u64; out.1 = bytes; out.3 = live.ice.remote_candidates().len(); }
+            drop(live);
+        }
+        out
+    });
+    match r {
+        Ok((retained, bytes_in, t, cands)) => {
+            run.count_n(&format!("iceflood:retained_per_input_byte_x100:{mode}"), retained * 100 / bytes_in.max(1));
+            run.count_n(&format!("iceflood:cpu_ms:{mode}"), (t[1] * 1000.0) as u64);
+            run.count_n(&format!("iceflood:remote_candidates:{mode}"), cands as u64);
+            if retained > 16 * bytes_in + 65536 {
+                run.fail("retain:ice::handle_stun_request:candidate-per-source", &case, &format!("{retained} bytes retained ({cands} remote candidates) after {count} unauthenticated Binding requests from distinct sources ({bytes_in} bytes received)")); }
+            if t[1] >= 0.4 && t[1] > 8.0 * t[0].max(0.01) {
+                run.fail("slow:ice::handle_stun_request:candidate-scan", &case, &format!("{} requests took {:.2} s CPU, {} requests {:.2} s: super-linear", count / 4, t[0], count, t[1])); }
+        }
+        Err(msg) => run.fail(&format!("panic:ice::handle_packet(flood):{}", super::panic_site(&msg)), &case, &msg),
+    }
+    run.case("iceflood", &format!("{mode} {count}"), "noncompared", true);
+}
+
 pub fn run_turnpkt(run: &mut Run, live: &Live, pkt: &[u8], nt: bool) {
     let p = pkt.to_vec();
     let l = std::panic::AssertUnwindSafe(live);
@@ -314,6 +363,7 @@ pub fn run_turnpkt(run: &mut Run, live: &Live, pkt: &[u8], nt: bool) {
         l.rt.block_on(l.ice.verif_handle_turn_packet(&p, &l.turn, l.peer));
         l.observed()
     });
+    super::alloc_side_check(run, "turnpkt", "IceTransport::handle_turn_packet", &format!("{} {}", known as u8, hex(pkt)), pkt.len(), 64, 4096);
 }
 
 /// one TURN/TCP message read over a real loopback connection: the server side writes `stream` and closes
@@ -341,6 +391,27 @@ pub fn run_turntcp(run: &mut Run, live: &Live, buf_len: usize, stream: &[u8], nt
 }
 
 /// RFC 4571 framing of `IceSocketWrapper::TcpStream(..).recv_from` over a real loopback connection
+/// the first frame of an inbound connection on the shared passive TCP listener (`read_tcp_framed_packet`), over a real connection
+pub fn run_sharedtcp(run: &mut Run, live: &Live, stream: &[u8], nt: bool) {
+    let l = std::panic::AssertUnwindSafe(live);
+    let data = stream.to_vec();
+    exec(run, "sharedtcp", &hex(stream), "shared_tcp::read_tcp_framed_packet", nt, Some((0, 1500, 0)), move || {
+        l.rt.block_on(async {
+            use tokio::io::AsyncWriteExt;
+            let lis = tokio::net::TcpListener::bind("127.0.0.1:0").await.unwrap();
+            let addr = lis.local_addr().unwrap();
+            let writer = tokio::spawn(async move { let mut s = tokio::net::TcpStream::connect(addr).await.unwrap(); let _ = s.write_all(&data).await; let _ = s.shutdown().await; });
+            let (mut accepted, _) = lis.accept().await.unwrap();
+            super::start_alloc();
+            let r = rustrtc::verif_hooks::decoders::read_tcp_framed_packet(&mut accepted).await;
+            super::mark_alloc();
+            let _ = writer.await;
+            match r { Ok(v) => format!("ok {}", v.len()), Err(e) => { let t = e.to_string();
+                if t.starts_with("invalid TCP STUN frame length") { "err invalid_TCP_STUN_frame_length".into() } else if t.starts_with("read TCP STUN frame") { "err early_eof".into() } else { anyhow_text(&e) } } }
+        })
+    });
+}
+
 pub fn run_tcp4571(run: &mut Run, live: &Live, buf_len: usize, stream: &[u8], nt: bool) {
     let l = std::panic::AssertUnwindSafe(live);
     let data = stream.to_vec();
@@ -397,6 +468,7 @@ fn gen_inner(rng: &mut Rng) -> Vec<u8> {
 }
 
 pub fn special(run: &mut Run, rng: &mut Rng, thorough: bool) {
+    for mode in 0..3u8 { run_iceflood(run, mode, if thorough { 40_000 } else { 20_000 }); }
     {
         let live = Live::new();
         // the canonical exchange: 401 with REALM + NONCE, then success with a relayed address; then the same without REALM / NONCE
@@ -537,6 +609,24 @@ pub fn special(run: &mut Run, rng: &mut Rng, thorough: bool) {
         }
     }
     run_tcp4571(run, &live, 1500, &[], true);
+    // shared passive TCP listener: first frame of an inbound connection
+    {
+        let max = 1500usize;                 // MAX_STUN_MESSAGE (the model takes it from the generated constant; boundary cases around it)
+        run_sharedtcp(run, &live, &[], true); run_sharedtcp(run, &live, &[0], true); run_sharedtcp(run, &live, &[0xFF], true);
+        for len in [0usize, 1, 2, 19, 20, 28, max - 1, max, max + 1, 65535] {
+            for prov in [len, len.saturating_sub(1), 0, len + 3, len / 2] {
+                let mut st = (len as u16).to_be_bytes().to_vec(); st.extend(std::iter::repeat(0x44).take(prov.min(70_000)));
+                run_sharedtcp(run, &live, &st, true);
+            }
+        }
+        for _ in 0..(if thorough { 2_000 } else { 150 }) {
+            let body = if rng.chance(1, 2) { gen_binding_req(rng) } else { gen_stun(rng) };
+            let claimed = match rng.below(5) { 0 => body.len() + 1, 1 => body.len().saturating_sub(1), 2 => rng.below(70_000) as usize % 65536, _ => body.len() };
+            let mut st = (claimed as u16).to_be_bytes().to_vec(); st.extend_from_slice(&body);
+            if rng.chance(1, 4) { let k = rng.below(st.len() as u64 + 1) as usize; st.truncate(k); }
+            run_sharedtcp(run, &live, &st, true);
+        }
+    }
     // RTX unwrap
     run_rtx(run, &[], false);
     for a in 0..=255u8 { run_rtx(run, &[a], false); }
@@ -551,6 +641,9 @@ pub fn replay_special(run: &mut Run, stream: &str, a: &[&str]) -> bool {
         ("tcp4571", 2) => { let l = Live::new(); run_tcp4571(run, &l, p(a[0]) as usize, &unhex(a[1]), true) }
         ("turntcp", 2) => { let l = Live::new(); run_turntcp(run, &l, p(a[0]) as usize, &unhex(a[1]), true) }
         ("rtx", 1) => run_rtx(run, &unhex(a[0]), true),
+        ("sharedtcp", 1) => { let l = Live::new(); run_sharedtcp(run, &l, &unhex(a[0]), true) }
+        ("sharedtcp", 0) => { let l = Live::new(); run_sharedtcp(run, &l, &[], true) }
+        ("iceflood", 2) => run_iceflood(run, p(a[0]) as u8, p(a[1]) as u32),
         ("turnclient", n) if n >= 2 => { let l = Live::new(); let sc: Vec<Vec<u8>> = a[2..].iter().map(|x| if *x == "-" { vec![] } else { unhex(x) }).collect(); run_turnclient(run, &l, p(a[0]) as u8, a[1] == "1", &sc, true) }
         _ => return false,
     }
